@@ -407,6 +407,9 @@ pub fn hash_str(s: &str) -> u64 {
 pub fn plan_for(reg: &Registry, prop: &str, exh_log2: f64, samples: u64) -> Vec<Plan> {
     let mut v = Vec::new();
     for (i, op) in reg.for_prop(prop) {
+        if op.stub {
+            continue; // explicit not-implemented stub: nothing to judge
+        }
         let sp = op.space_log2();
         let mode = if sp <= exh_log2 {
             Mode::Exhaustive
